@@ -358,6 +358,72 @@ def r4_error_cells(ctx, res):
                     res.ok(rid, "%s/%s" % (fset, name), g.entry.get("parser_file_rel"), "no Error in the action functions")
 
 
+def in_log_region(f, b):
+    """block b only runs when a log!/logn! guard (RUSTEMO_TRACE set, debug build) was taken: an argument expression of
+    log! keeps the caller's span, but it sits on the guarded edge"""
+    dom = f.dominators().get(b, set())
+    for d in dom:
+        tm = f.blocks[d]["term"]
+        if tm["k"] == "switch" and mir.is_log(tm):
+            tmap = dict((v, bb) for v, bb in tm["targets"])
+            then_bb = tm["otherwise"] if 0 in tmap else tmap.get(1)
+            if then_bb is not None and (then_bb == b or then_bb in dom) and f.pred(then_bb) == [d]:
+                return True
+    return False
+
+
+def r5_no_forest_traversal(F, res):
+    """The forest can be cyclic (cyclic grammars) and arbitrarily deep: its traversals (solutions, ambiguities, tree
+    extraction, ..) are recursions without a depth bound. They are the user's to call; the GLR driver itself must not
+    run them on the way to its answer (outside trace output), or parse() inherits their stack overflow."""
+    rid = res.rule("C15-R5", "the GLR driver does not call the recursive forest traversals of glr::gss (solutions, ambiguities, "
+                   "tree extraction) outside log!: parse() stays free of unbounded-depth recursion on cyclic/deep forests", floor=1)
+    gss = {p: f for p, f in F.fns.items() if f.crate == "rustemo" and f.has_body() and f.file.endswith("glr/gss.rs")}
+    def direct(f):
+        out = set()
+        for _, tm in f.calls():
+            r = tm["f"].get("resolved") or tm["f"].get("def") if tm["f"]["k"] == "fn" else None
+            if r:
+                out.add(r)
+        for _, _, s in f.stmts():
+            rv = s.get("rv")
+            if rv and rv["k"] == "agg" and "closure" in rv:
+                out.add(rv["closure"])
+        return out
+    E = {p: direct(f) & set(gss) for p, f in gss.items()}
+    def reach(a):
+        seen, st = set(), list(E.get(a, ()))
+        while st:
+            x = st.pop()
+            if x in seen:
+                continue
+            seen.add(x)
+            st.extend(E.get(x, ()))
+        return seen
+    recursive = {p for p in gss if p in reach(p)}
+    traversals = {p for p in gss if p in recursive or reach(p) & recursive}
+    if not recursive:
+        res.anchor_lost(rid, "no recursive forest traversal found in glr::gss")
+        return
+    bad = []
+    ncalls = 0
+    for p, f in sorted(F.fns.items()):
+        if f.crate != "rustemo" or not f.has_body() or not f.file.endswith("glr/parser.rs"):
+            continue
+        for b, tm in f.calls():
+            r = (tm["f"].get("resolved") or tm["f"].get("def")) if tm["f"]["k"] == "fn" else None
+            if r in traversals:
+                ncalls += 1
+                if not mir.is_log(tm) and not in_log_region(f, b):
+                    bad.append(("%s:%s" % (f.file, tm.get("line")), mir.short(r), mir.strip_generics(p).rsplit("::", 1)[-1]))
+    if bad:
+        res.violation(rid, "driver-traverses-forest", "the GLR driver calls %s in %s: a recursion over the forest whose depth the input "
+                      "decides (a cyclic grammar never returns from it)" % (bad[0][1], bad[0][2]), bad[0][0])
+    else:
+        res.ok(rid, "driver-traverses-forest", None, "%d recursive traversal(s) in glr::gss, %d call(s) from the driver, all inside log!" % (
+            len(recursive), ncalls))
+
+
 def run(ctx, res):
     F = ctx.facts("core")
     rid = res.rule("C15-R1", "may-panic census of the runtime crate: every panic-capable construct reachable from the public "
@@ -370,6 +436,7 @@ def run(ctx, res):
     r2d_boundaries(F, res)
     r3_regex(F, res)
     r4_error_cells(ctx, res)
+    r5_no_forest_traversal(F, res)
     from . import controls
     controls.run(ctx, res, "C15")
     res.extra.update({"obligations": stats["sites"], "discharged": stats["sites"] - stats["new"] - stats["finding"],
